@@ -1,6 +1,7 @@
 import DtnVerif.Drv.Basic
 import DtnVerif.Drv.Tcpcl
 import DtnVerif.Drv.TcpclEp
+import DtnVerif.Drv.TcpclAgent
 import DtnVerif.Drv.Agent
 import DtnVerif.Drv.Sec
 import DtnVerif.Drv.Frag
@@ -16,6 +17,7 @@ def handlers : List Handler := [
   basicHandler,
   tcpclCodecHandler,
   tcpclEpHandler,
+  tcpclAgentHandler,
   agentHandler,
   secHandler,
   fragHandler,
